@@ -31,6 +31,8 @@ GROUPS = {
             H("c15_array_roundtrip", ["C15"], bound="arrays of length 0..=3 of arbitrary immediates"),
             H("c15_tag_of_every_shape", ["C15"], bound="any value of any of the 7 types (arrays <= 2 immediates)"),
             H("c15_eq_pairwise", ["C15"], bound="full product of two arbitrary scalar/text/function values"),
+            H("c15_int_eq_exact", ["C15", "C06"], bound="all 2^61 x 2^61 integer pairs"),
+            H("c15_float_eq_exact", ["C15"], bound="all 2^64 x 2^64 float bit patterns"),
             H("c06_int_add", ["C06", "C05"], bound="all 2^61 x 2^61 pairs"),
             H("c06_int_sub", ["C06", "C05"], bound="all 2^61 x 2^61 pairs"),
             H("c06_int_mul_small", ["C06"], bound="|a|,|b| <= 2^16, both symbolic"),
@@ -81,6 +83,7 @@ VM_STUBS = ["alloc::fmt::format -> empty String", "VM::next -> first call: insta
 CW = "stack window: 1-4 arbitrary immediates (null/bool/61-bit int/function descriptor), symbolic operands; "
 
 GROUPS["vm"] = {
+    "stub_based": True,
     "src": "src/vm.rs",
     "extra": {"src/object.rs": ["object_proofs.rs"]},
     "harness_file": "vm_proofs.rs",
@@ -100,6 +103,8 @@ GROUPS["vm"] = {
         H("k_set_global_existing", ["C02", "C09", "C17"], bound=CW + "2 globals, index < 2", tprops=["C01", "C05", "C10"]),
         H("k_set_global_grows", ["C02", "C09", "C17"], bound=CW + "1 global, index 3", tprops=["C01", "C05"]),
         H("k_get_global", ["C02", "C05", "C09", "C17"], bound=CW + "0-2 globals, ANY 16-bit index", tprops=["C01", "C10"]),
+        # k_local_slot_wide (70 000-slot stack, slot arithmetic beyond 65 535) is kept in vm_proofs.rs but not registered:
+        # CBMC aborts (status 6) on the 560 KB stack object; the 16-bit limits are outside the claim (DESIGN.md 4.3-6)
         H("k_get_local", ["C02", "C09", "C12"], bound=CW + "4 slots, any bp+idx < 4", tprops=["C01", "C05", "C10"]),
         H("k_set_local", ["C02", "C09", "C12"], bound=CW + "4 slots, any bp+idx < 3", tprops=["C01", "C05", "C10"]),
         H("k_jump", ["C02", "C11"], bound=CW + "any 16-bit target", tprops=["C01", "C05"]),
